@@ -30,6 +30,15 @@ pub fn stark_commit<Layout: LayoutTrait>(
     // Generate interaction values after composition.
     let interaction_after_composition = transcript.random_felt_to_prover();
 
+    // The OODS values are read positionally (mask values followed by the composition values),
+    // so their number must be exactly what the layout expects.
+    if unsent_commitment.oods_values.len() != Layout::MASK_SIZE + Layout::CONSTRAINT_DEGREE {
+        return Err(Error::InvalidOodsLength {
+            expected: Layout::MASK_SIZE + Layout::CONSTRAINT_DEGREE,
+            actual: unsent_commitment.oods_values.len(),
+        });
+    }
+
     // Read OODS values.
     transcript.read_felt_vector_from_prover(&unsent_commitment.oods_values);
 
@@ -95,6 +104,9 @@ pub enum Error {
 
     #[error("OodsVerifyError Error")]
     Oods(#[from] oods::OodsVerifyError),
+
+    #[error("Invalid number of oods values: expected {expected}, actual {actual}")]
+    InvalidOodsLength { expected: usize, actual: usize },
 }
 
 #[cfg(not(feature = "std"))]
@@ -108,4 +120,7 @@ pub enum Error {
 
     #[error("OodsVerifyError Error")]
     Oods(#[from] oods::OodsVerifyError),
+
+    #[error("Invalid number of oods values: expected {expected}, actual {actual}")]
+    InvalidOodsLength { expected: usize, actual: usize },
 }
